@@ -158,9 +158,13 @@ structure CfgsOK (cfgA cfgB : Cfg) : Prop where
   bs : cfgA.bs = cfgB.bs
   ne1 : cfgA.sender ≠ ""
   ne2 : cfgA.target ≠ ""
+  /-- neither engine has a data dictionary configured: the default validator, under any of its five settings (with a
+      dictionary whether the peer's traffic passes depends on what the dictionary says) -/
+  vda : cfgA.validator.app = none
+  vdb : cfgB.validator.app = none
 
 theorem CfgsOK.symm {cfgA cfgB : Cfg} (h : CfgsOK cfgA cfgB) : CfgsOK cfgB cfgA :=
-  ⟨h.pb, h.pa, h.nb, h.na, h.ts.symm, h.st.symm, h.bs.symm, by rw [← h.ts]; exact h.ne2, by rw [← h.st]; exact h.ne1⟩
+  ⟨h.pb, h.pa, h.nb, h.na, h.ts.symm, h.st.symm, h.bs.symm, by rw [← h.ts]; exact h.ne2, by rw [← h.st]; exact h.ne1, h.vdb, h.vda⟩
 
 theorem poolP_mono {y x x' : Sess} {rcvY : List (String × String)} {d d' : List String} {adm : Bool} (hc : x'.cfg = x.cfg)
     (hg : Grow adm x.store x'.store) {im : InMsg} (h : PoolP (mkCtx y x rcvY d) im) : PoolP (mkCtx y x' rcvY d') im := by
@@ -180,7 +184,8 @@ theorem halves_step {cx cy : Cfg} (hcf : CfgsOK cx cy) {x y : Sess} (hcx : x.cfg
   have hc : CtxOK (mkCtx y x rcvY dlvY) :=
     ⟨by simp only [mkCtx, hcy]; exact hcf.pb, by simp only [mkCtx, hcy]; exact hcf.nb, by simp only [mkCtx, hcx, hcy]; exact hcf.ts.symm,
       by simp only [mkCtx, hcx, hcy]; exact hcf.st.symm, by simp only [mkCtx, hcx, hcy]; exact hcf.bs.symm,
-      by simp only [mkCtx, hcx]; exact hcf.ne1, by simp only [mkCtx, hcx]; exact hcf.ne2, hxy.sok, hb⟩
+      by simp only [mkCtx, hcx]; exact hcf.ne1, by simp only [mkCtx, hcx]; exact hcf.ne2, hxy.sok, hb,
+      by simp only [mkCtx, hcy]; exact hcf.vdb⟩
   have r := side_step hc y e he rfl rfl hyx.sok hyx.q hxy.t1 hxy.t2 hxy.dlv hxy.pool
   generalize step y e = st at r
   obtain ⟨y', obs, status⟩ := st
